@@ -105,6 +105,7 @@ class C11Machine(RecordingMixin, RuleBasedStateMachine):
         return emulator.QuickSampler(self.circ, lw.State(list(self.state)), photon_counting=self.pc,
                                      post_select=postsel.to_real(self.ps))
 
+
     def too_big(self):
         c = self.circ
         try:
@@ -112,7 +113,10 @@ class C11Machine(RecordingMixin, RuleBasedStateMachine):
         except Exception:  # noqa: BLE001
             return True
         ph = sum(self.state) + sum(c.heralds["input"].values())
-        return d > 10 or ph > 4 or c.input_modes == 0
+        full_source = self.src["purity"] != 1 or self.src["indistinguishability"] != 1
+        if full_source and (ph > 2 or d > 7):
+            return True
+        return d > 9 or ph > 3 or c.input_modes == 0
 
     def compare(self, what, long_fn, fresh_fn, cmp):
         """Both must raise the same exception type, or give equal results."""
@@ -285,6 +289,11 @@ class C11Machine(RecordingMixin, RuleBasedStateMachine):
         self.quick.photon_counting = pc
         self.changed("post-selection/detector-mode")
 
+    def do_quick_pc(self, pc):
+        self.pc = pc
+        self.quick.photon_counting = pc
+        self.changed("detector-mode-only")
+
     # reads ---------------------------------------------------------------
     def do_read(self, which):
         if self.too_big():
@@ -415,6 +424,40 @@ class C11Machine(RecordingMixin, RuleBasedStateMachine):
     @rule(ps=postsel.post_selection(3, 2), pc=st.booleans())
     def r_quick_cfg(self, ps, pc):
         self.step("quick_cfg", ps=ps, pc=pc)
+
+    @rule(occ=st.lists(st.integers(0, 2), min_size=2, max_size=4), seed=st.integers(0, 2 ** 20))
+    def r_read_pc_read(self, occ, seed):
+        """cached QuickSampler distribution -> only photon_counting toggles -> read / sample again"""
+        if not self.ready:
+            return
+        self.step("input", occ=occ)
+        self.step("read", which="quick")
+        self.step("quick_pc", pc=not self.pc)
+        self.step("sample", which="quick.N_outputs", seed=seed, n=20)
+        self.step("read", which="quick")
+
+    @rule(attr=st.sampled_from(["brightness", "purity", "indistinguishability", "probability_threshold"]),
+          value=st.sampled_from([0.9, 0.6, 0.75]), backend=st.sampled_from([None, "slos", "permanent"]),
+          seed=st.integers(0, 2 ** 20))
+    def r_read_one_change_read(self, attr, value, backend, seed):
+        """cached Sampler distribution -> exactly one source attribute or the backend changes -> read again"""
+        if not self.ready:
+            return
+        self.step("read", which="sampler")
+        if backend is not None and backend != self.backend:
+            self.step("backend", backend=backend)
+        else:
+            cfg = dict(self.src)
+            cfg[attr] = (1e-3 if self.src[attr] == 0 else 0) if attr == "probability_threshold" else value
+            self.step("source", cfg=cfg, inplace=bool(seed % 2), attr=attr)
+        self.step("sample", which="N_inputs", seed=seed, n=20)
+        self.step("read", which="sampler")
+
+    @rule(pc=st.booleans())
+    def r_quick_pc_only(self, pc):
+        """only the detector mode changes (the post-selection object stays the same)"""
+        if self.ready:
+            self.step("quick_pc", pc=pc)
 
     @rule(which=st.sampled_from(["sampler", "quick"]))
     def r_read(self, which):
